@@ -168,6 +168,24 @@ def lean_obligations(prop, log):
                     hits.append("%s: axiom" % fn)
     if hits:
         broken.append("forbidden tokens: " + ", ".join(hits[:10]))
+    if prop == "C07":
+        # the checked copies of the stage functions (Lemmas/CheckedDefs.lean) may touch arrays only through the
+        # checked primitives: below the PRIMITIVES (END) marker no totalised access and no unchecked stage function
+        cd = os.path.join(LEAN, "UBidi", "Lemmas", "CheckedDefs.lean")
+        if os.path.exists(cd):
+            src = open(cd, encoding="utf-8").read()
+            m = re.search(r"^.-! ## =+ PRIMITIVES \(END\).*$", src, re.M)
+            if not m:
+                broken.append("CheckedDefs.lean: PRIMITIVES (END) marker not found")
+            else:
+                body = src[m.end():]
+                bad = re.findall(r"\b(getD|cget|setRange|setAll|setWhileBN|setWhileNsmOrBN|slice|getLast\??|head!|weakStep|w7Step|resolveWeak|bpStep|seqChars|identifyBracketPairs|scanEnclosed|n0Pair|n12Step|n12|resolveNeutral|resolveLevels|exStep|explicitCompute|seqBounds|seqOfRunFast|prepStep|isolatingRunSequences|fillRemovedLoop|assignLevelsToRemovedChars|resolveSequences|paraLevels|iterForwardsFrom|iterBackwardsFrom|bidiInfo|paragraphBidiInfo)\b|List\.set|\.set |get!|\]!|\]\?|List\.take|\.take |List\.drop|\.drop ", body)
+                if bad:
+                    broken.append("CheckedDefs.lean uses unchecked accesses below the primitives section: %s" % sorted(set(str(b) for b in bad))[:6])
+                if re.search(r"^\s*(theorem|lemma|example)\b", src, re.M):
+                    broken.append("CheckedDefs.lean must contain definitions only")
+        else:
+            broken.append("Lemmas/CheckedDefs.lean missing")
     # axioms of every property theorem
     axioms = {}
     if build_ok and names:
